@@ -22,17 +22,23 @@ Deep == FALSE
 DeepOn == TRUE
 MissSets(T, w) == {{}, {<<3, 1>>}, {<<T, w>>}, {<<2, w>>}, {<<1, 1>>}, {<<4, 1>>, <<5, w>>}}
                   \cup (IF Deep THEN {{<<2, 1>>, <<6, 1>>}, {<<3, w>>, <<4, w>>}, {<<5, 1>>}, {<<1, w>>, <<T, 1>>}, {<<T - 1, 1>>}} ELSE {})
-Scen == UNION {{[K |-> kpt[1][1], nx |-> kpt[2], p |-> kpt[1][2], icpt |-> TRUE, exact |-> FALSE, g |-> g, data |-> Rows(kpt[3], kpt[1][1] + kpt[2], ms, g)] :
+Scen == UNION {{[K |-> kpt[1][1], nx |-> kpt[2], p |-> kpt[1][2], icpt |-> TRUE, exact |-> FALSE, g |-> g, prior |-> <<>>, data |-> Rows(kpt[3], kpt[1][1] + kpt[2], ms, g)] :
                    ms \in MissSets(kpt[3], kpt[1][1] + kpt[2]), g \in {0, 1}}
                : kpt \in ({<<1, 1>>, <<1, 2>>, <<2, 1>>} \X {0, 1} \X {7, 8})
                           \cup (IF Deep THEN ({<<1, 1>>, <<1, 2>>, <<2, 1>>} \X {0, 1} \X {9, 10}) \cup ({<<2, 2>>} \X {0} \X {9, 10}) ELSE {})}
-        \cup (IF Deep THEN UNION {{[K |-> kT[1], nx |-> 0, p |-> 1, icpt |-> FALSE, exact |-> FALSE, g |-> g, data |-> Rows(kT[2], kT[1], ms, g)] :
+        \cup (IF Deep THEN UNION {{[K |-> kT[1], nx |-> 0, p |-> 1, icpt |-> FALSE, exact |-> FALSE, g |-> g, prior |-> <<>>, data |-> Rows(kT[2], kT[1], ms, g)] :
                                       g \in {0, 1}, ms \in {{}, {<<3, 1>>}, {<<kT[2], kT[1]>>}}} : kT \in {1, 2} \X {7, 9}} ELSE {})
-        \cup {[K |-> 1, nx |-> 1, p |-> 1, icpt |-> TRUE, exact |-> TRUE, g |-> 0, data |-> [t \in 1..6 |-> <<Y1(t), Gen(t, 2)>>]],
-              [K |-> 2, nx |-> 0, p |-> 1, icpt |-> TRUE, exact |-> TRUE, g |-> 0, data |-> [t \in 1..6 |-> <<YA(t), YB(t)>>]],
-              [K |-> 1, nx |-> 0, p |-> 1, icpt |-> FALSE, exact |-> FALSE, g |-> 0, data |-> Rows(6, 1, {}, 0)]}
+        \cup {[K |-> 1, nx |-> 1, p |-> 1, icpt |-> TRUE, exact |-> TRUE, g |-> 0, prior |-> <<>>, data |-> [t \in 1..6 |-> <<Y1(t), Gen(t, 2)>>]],
+              [K |-> 2, nx |-> 0, p |-> 1, icpt |-> TRUE, exact |-> TRUE, g |-> 0, prior |-> <<>>, data |-> [t \in 1..6 |-> <<YA(t), YB(t)>>]],
+              [K |-> 1, nx |-> 0, p |-> 1, icpt |-> FALSE, exact |-> FALSE, g |-> 0, prior |-> <<>>, data |-> Rows(6, 1, {}, 0)]}
 
-Init == sc \in Scen /\ out = <<>> /\ done = FALSE
+\* prior dummy observations (integer parameters keep the normal equations integral)
+Minn(rho, mu, kappa) == [kind |-> "minn", rho |-> rho, mu |-> mu, kappa |-> kappa]
+Mean(mean, mu) == [kind |-> "mean", mean |-> mean, mu |-> mu]
+PriorSets == { << Minn(1, 2, 0) >>, << Minn(0, 1, 1) >>, << Mean(2, 1) >>, << Mean(CNeg1, 2), Minn(1, 1, 1) >> }
+PriorScen == {[K |-> kpn[1], nx |-> kpn[3], p |-> kpn[2], icpt |-> ic, exact |-> FALSE, g |-> 2, prior |-> pr, data |-> Rows(7, kpn[1] + kpn[3], ms, 0)] :
+                 kpn \in {<<1, 1, 0>>, <<1, 1, 1>>, <<2, 1, 0>>, <<2, 1, 1>>, <<1, 2, 0>>}, ic \in BOOLEAN, pr \in PriorSets, ms \in {{}, {<<3, 1>>}}}
+Init == sc \in Scen \cup PriorScen /\ out = <<>> /\ done = FALSE
 Compute == /\ ~done /\ done' = TRUE /\ UNCHANGED sc
            /\ \E s \in {OlsSolve(sc)} :
                 out' = IF s.ok THEN [s EXCEPT !.check = s.check /\ Law_Orthogonal(sc, s) /\ Law_NoiseFree(sc, s)] ELSE s
